@@ -3,6 +3,7 @@ package verifh
 import (
 	"bytes"
 	"fmt"
+	"io"
 	"math/big"
 	"strings"
 
@@ -246,6 +247,9 @@ func recvAgainstRef(r *Run, fs framingSpec, ch channel.Channel, ref refDecoder, 
 				r.Fail("fabricated-or-altered-record", "%s: Recv %d returned %s, the stream's next record is %s", fs.Name, i, preview(data), preview(exp.Rec))
 				return
 			}
+			if err == io.EOF && len(data) != 0 && same(exp.Rec) {
+				break // the last record handed over together with the end of the stream
+			}
 			if err != nil {
 				if len(data) != 0 && !same(exp.Rec) {
 					r.Fail("fabricated-or-altered-record", "%s: Recv %d returned %s with error %v, the stream's next record is %s", fs.Name, i, preview(data), err, preview(exp.Rec))
@@ -280,8 +284,11 @@ func recvAgainstRef(r *Run, fs framingSpec, ch channel.Channel, ref refDecoder, 
 				r.Fail(cls, "%s: Recv %d returned %s without error although %s", fs.Name, i, preview(data), exp.Why)
 				return
 			}
-			if len(data) != 0 && !bytes.Equal(data, exp.Partial) {
-				r.Fail("shortened-final-record", "%s: Recv %d returned %s with %v; the unterminated final record is %s and must not be shortened", fs.Name, i, preview(data), err, preview(exp.Partial))
+			// With the error reported, whatever accompanies it must still be bytes of
+			// that record in their place (what arrived of it, or a leading part):
+			// nothing fabricated, and nothing passed off as a complete record.
+			if len(data) != 0 && !bytes.HasPrefix(exp.Partial, data) {
+				r.Fail("shortened-final-record", "%s: Recv %d returned %s with %v; of the unterminated final record the stream holds %s", fs.Name, i, preview(data), err, preview(exp.Partial))
 				return
 			}
 		case xEnd:
